@@ -105,6 +105,21 @@ def run(ck):
     rq_pairs = {lit: en for lit, en in tables.chain_pairs(rq)}
     rq_lits = tables.compared_literals(rq)
     rq_enums = {x.rsplit("::", 1)[-1] for x in tables.assigned_enums(rq, "version_")}
+    # the version may be worked out by a helper that returns it (`std::optional<Version> parseVersion(text)`; `version_ = *v`): where
+    # version_ is assigned something that is not an enumerator, the enumerators the step's helpers return count as stored, and the
+    # literals they compare against as compared (presence level, like every shape that is not an if-chain in the step itself)
+    if any((e_["lhs"].get("f") or "").endswith("version_") and not [r_ for r_ in (e_.get("refs") or []) if r_.startswith("e:")] for e_ in rq.events("assign")) or \
+            any(e_.get("op") == "=" and ((e_.get("recv") or {}).get("f") or "").endswith("version_") for e_ in rq.events("call")):
+        helpers_ = [g_ for c_ in rq.events("call") for g_ in prog.resolve_call(c_) if g_.blocks and not g_.cls and g_.file == rq.file]
+        for g_ in helpers_:
+            for r_ in list(g_.events("return")) + list(g_.events("construct")):
+                for x_ in (r_.get("refs") or []):
+                    if x_.startswith("e:") and "Version::" in x_:
+                        rq_enums.add(x_.rsplit("::", 1)[-1])
+        for e_ in rq.events(("iret",)):
+            for x_ in (e_.get("refs") or []):
+                if x_.startswith("e:") and "Version::" in x_:
+                    rq_enums.add(x_.rsplit("::", 1)[-1])
     # (a reader that walks a namespace-scope table of {"literal", Enum} rows: the rows are the pairs)
     for lit_, en_ in tables.referenced_tables(prog, rq, prog.lambdas_in(rq)).items():
         if "Version::" in en_:
